@@ -581,6 +581,64 @@ def rule_t6(repo, col):
                        construct="Term.__repr__: %s operand, %s" % (which, what), function="Term.__repr__")
 
 
+def _fold_text(e, tokens):
+    """Text denoted by a string-building expression, with the sources in `tokens` replaced by their marker; None when not foldable.
+    Understands literals, `fmt % x` / `fmt % (x, y)` with %s, and `fmt.format(x, y)` with {} / {!s} / {0}-style fields."""
+    src = norm(e)
+    if src in tokens:
+        return tokens[src]
+    if isinstance(e, ast.Call) and dotted(e.func) == "str" and len(e.args) == 1:
+        return _fold_text(e.args[0], tokens)
+    if isinstance(e, ast.Constant) and isinstance(e.value, str):
+        return e.value
+    if isinstance(e, ast.BinOp) and isinstance(e.op, ast.Add):
+        a, b = _fold_text(e.left, tokens), _fold_text(e.right, tokens)
+        return None if a is None or b is None else a + b
+    if isinstance(e, ast.BinOp) and isinstance(e.op, ast.Mod):
+        fmt = _fold_text(e.left, tokens)
+        args = e.right.elts if isinstance(e.right, ast.Tuple) else [e.right]
+        vals = [_fold_text(a, tokens) for a in args]
+        if fmt is None or any(v is None for v in vals) or fmt.count("%s") != len(vals) or fmt.replace("%s", "").count("%") != 0:
+            return None
+        out = fmt
+        for v in vals:
+            out = out.replace("%s", v, 1)
+        return out
+    if isinstance(e, ast.Call) and isinstance(e.func, ast.Attribute) and e.func.attr == "format" and not e.keywords:
+        fmt = _fold_text(e.func.value, tokens)
+        vals = [_fold_text(a, tokens) for a in e.args]
+        if fmt is None or any(v is None for v in vals):
+            return None
+        out = []
+        i = 0
+        auto = 0
+        while i < len(fmt):
+            ch = fmt[i]
+            if ch == "{":
+                j = fmt.find("}", i)
+                if j < 0:
+                    return None
+                field = fmt[i + 1:j].split("!")[0].split(":")[0]
+                if field == "":
+                    k = auto
+                    auto += 1
+                elif field.isdigit():
+                    k = int(field)
+                else:
+                    return None
+                if k >= len(vals):
+                    return None
+                out.append(vals[k])
+                i = j + 1
+            elif ch == "}":
+                return None
+            else:
+                out.append(ch)
+                i += 1
+        return "".join(out)
+    return None
+
+
 def rule_t7(repo, col):
     """Not.__repr__: a negated conjunction or disjunction is printed in parentheses (negation binds tighter than ',' and ';')"""
     from .. import dtable
@@ -604,7 +662,10 @@ def rule_t7(repo, col):
             txt = p_.value or ""
             stores = [a for fn, a, _ in p_.calls if fn == "<store>" and a[0] == "self.repr"]
             src = stores[-1][1] if stores else txt
-            paren = "'(%s)' % str(self.child)" in src
+            text = _fold_text(ast.parse(src, mode="eval").body, {"str(self.child)": "\x00CHILD\x00", "self.child": "\x00CHILD\x00", "self.functor": "\x00FUNCTOR\x00"})
+            if text is None or "\x00CHILD\x00" not in text:
+                raise AnalysisError("Not.__repr__: printed text not foldable: %s" % src[:100])
+            paren = "(\x00CHILD\x00)" in text
             if paren != (kind is not None):
                 bad.append(src)
         col.decide("T7", m, f.node, not bad, "a negated %s is printed %s parentheses" % (kind or "atom / other term", "in" if kind else "without"),
